@@ -66,7 +66,50 @@ def one(m):
         shutil.rmtree(d, ignore_errors=True)
 
 
+ALL = ["C%02d" % i for i in range(1, 18)]
+
+
+def one_refactor(path):
+    d = tempfile.mkdtemp(prefix="ipp-rf-")
+    try:
+        for n in ("src", "tests"):
+            shutil.copytree(os.path.join(REPO, n), os.path.join(d, n))
+        for n in ("Cargo.toml", "Cargo.lock"):
+            shutil.copy(os.path.join(REPO, n), os.path.join(d, n))
+        r = subprocess.run(["git", "apply", path], cwd=d, stdout=subprocess.PIPE, stderr=subprocess.STDOUT, text=True)
+        if r.returncode != 0:
+            return path, "STALE", r.stdout[:200], []
+        bad = []
+        for pid in ALL:
+            rc, rules, out = run_check(d, pid, "quick")
+            if rc != 0:
+                bad.append((pid, sorted({x[0] for x in rules})))
+        return path, ("ok" if not bad else "FALSE-ALARM"), "", bad
+    finally:
+        shutil.rmtree(d, ignore_errors=True)
+
+
+def refactors(argv):
+    import glob
+    files = sorted(glob.glob(os.path.join(VERIF, "refactors", "*.diff")))
+    if "--only" in argv:
+        o = argv[argv.index("--only") + 1]
+        files = [f for f in files if o in f]
+    jobs = int(argv[argv.index("--jobs") + 1]) if "--jobs" in argv else 6
+    t0 = time.time()
+    nbad = 0
+    with ThreadPoolExecutor(max_workers=jobs) as ex:
+        for path, verdict, detail, bad in ex.map(one_refactor, files):
+            print("%-22s %-11s %s %s" % (os.path.basename(path), verdict, detail, bad if bad else ""))
+            if verdict != "ok":
+                nbad += 1
+    print("refactors: %d patches, %d not silent, %.0fs" % (len(files), nbad, time.time() - t0))
+    return 1 if nbad else 0
+
+
 def main(argv):
+    if "--refactors" in argv:
+        return refactors(argv)
     sys.path.insert(0, os.path.join(VERIF, "mutants"))
     import catalog
     ms = catalog.M
